@@ -4,6 +4,7 @@ import json, os, sys
 tag, prop, needs, caught = sys.argv[1:5]
 origin = sys.argv[5] if len(sys.argv) > 5 else "independent sub-agent (saw only the property text and a scratch worktree)"
 d = os.path.join(os.path.dirname(os.path.dirname(os.path.abspath(__file__))), "seeded", tag)
+os.makedirs(d, exist_ok=True)
 conf = open(os.path.join(d, "confirm.txt")).read() if os.path.exists(os.path.join(d, "confirm.txt")) else ""
 meta = {"property": prop, "origin": origin, "needs_to_manifest": needs,
         "confirmed": {"how": "tools/confirm_seeded.sh in a fresh scratch worktree of /repo HEAD: patch applies, `cargo test --workspace --no-fail-fast --offline` passes with it, the demo passes on the original code and fails with the change", "result": conf.split("\n")[0]},
